@@ -8,6 +8,39 @@ use updater::verif::{verif_set_sync_hook, SyncEvent};
 use crate::replay::World;
 
 pub static NET_HOOK: Mutex<Option<fn(&str)>> = Mutex::new(None);
+pub static STALL: std::sync::atomic::AtomicBool = std::sync::atomic::AtomicBool::new(false);
+
+// a hung connection: thread 0's patch check does not return until every other thread has finished
+// all its calls (or 5 s pass, which is reported)
+fn stall_hook(what: &str) {
+    let Some(me) = IDX.with(|c| c.get()) else {
+        return;
+    };
+    if what != "check" || me != 0 || !STALL.load(std::sync::atomic::Ordering::SeqCst) {
+        return;
+    }
+    let start = std::time::Instant::now();
+    let mut st = STATE.lock().unwrap();
+    st.in_net[me] = true;
+    CV.notify_all();
+    loop {
+        let others_done = (1..MAXT).all(|i| st.finished[i] || !st.present[i]);
+        if others_done || !st.active {
+            st.in_net[me] = false;
+            return;
+        }
+        if start.elapsed().as_secs() >= 5 {
+            crate::replay::DEPTH_VIOLATIONS
+                .lock()
+                .unwrap()
+                .push("calls of other threads did not complete while an update was stuck in the network".into());
+            st.in_net[me] = false;
+            return;
+        }
+        let (g, _) = CV.wait_timeout(st, std::time::Duration::from_millis(100)).unwrap();
+        st = g;
+    }
+}
 
 const MAXT: usize = 4;
 
@@ -21,6 +54,8 @@ struct State {
     trace: Vec<String>,
     parked_upd: [bool; MAXT],
     upd_holder: Option<usize>,
+    present: [bool; MAXT],
+    in_net: [bool; MAXT],
 }
 
 static STATE: Mutex<State> = Mutex::new(State {
@@ -32,6 +67,8 @@ static STATE: Mutex<State> = Mutex::new(State {
     trace: Vec::new(),
     parked_upd: [false; MAXT],
     upd_holder: None,
+    present: [false; MAXT],
+    in_net: [false; MAXT],
 });
 static CV: Condvar = Condvar::new();
 
@@ -94,7 +131,11 @@ pub fn run(w: &World, threads: Vec<Vec<Vec<String>>>, order: &[usize]) -> String
         let mut st = STATE.lock().unwrap();
         *st = State::default();
         st.active = true;
+        for i in 0..n {
+            st.present[i] = true;
+        }
     }
+    *NET_HOOK.lock().unwrap() = Some(stall_hook);
     verif_set_sync_hook(Some(hook));
     let outs: Vec<String> = std::thread::scope(|s| {
         let mut handles = vec![];
@@ -129,7 +170,7 @@ pub fn run(w: &World, threads: Vec<Vec<Vec<String>>>, order: &[usize]) -> String
                 // demonstrably still inside its update (parked at its next lock) or has let go
                 loop {
                     match st.upd_holder {
-                        Some(h) if h != t && !st.parked[h] && !st.finished[h] => {
+                        Some(h) if h != t && !st.parked[h] && !st.finished[h] && !st.in_net[h] => {
                             st = CV.wait(st).unwrap();
                         }
                         _ => break,
@@ -151,6 +192,7 @@ pub fn run(w: &World, threads: Vec<Vec<Vec<String>>>, order: &[usize]) -> String
         handles.into_iter().map(|h| h.join().unwrap()).collect()
     });
     verif_set_sync_hook(None);
+    *NET_HOOK.lock().unwrap() = None;
     outs.join("|")
 }
 
